@@ -109,8 +109,25 @@ func Num() *Decl {
 	}
 }
 
+// Val2 is a fourth declared program: TWO valued options next to a flag, so that a command line can carry two
+// `-x VALUE` pairs (each option matcher removes a pair from the middle of the vector the other one also works on).
+func Val2() *Decl {
+	return &Decl{
+		Name: "val2",
+		Opts: []OptDecl{
+			{Key: "p", Names: []string{"-p", "--pp"}, Flag: false},
+			{Key: "o", Names: []string{"-o", "--out"}, Flag: false},
+			{Key: "a", Names: []string{"-a", "--aa"}, Flag: true},
+		},
+		Args: []string{"X"},
+	}
+}
+
 // DeclByName returns the declared program of a replayable case.
 func DeclByName(n string) *Decl {
+	if n == "val2" {
+		return Val2()
+	}
 	if n == "alt" {
 		return Alt()
 	}
